@@ -121,24 +121,6 @@ struct Ctx<'a> {
     rep: &'a mut Report,
     script: String,
     kind: &'static str,
-    /// WHERE clause present and at least 100 input rows: the SIMD filter path can be taken
-    simd_candidate: bool,
-}
-
-/// the recorded finding C08/simd-filter-nulls-strings and nothing else: the two results are equal
-/// once every string is replaced by NULL, in a query that can take the SIMD filter path
-fn simd_signature(cand: bool, ur: &[Vec<SqlValue>], fr: &[Vec<SqlValue>]) -> Option<&'static str> {
-    if !cand {
-        return None;
-    }
-    let nulled = |rows: &[Vec<SqlValue>]| -> Vec<Vec<SqlValue>> {
-        rows.iter().map(|r| r.iter().map(|v| if matches!(v, SqlValue::Varchar(_) | SqlValue::Character(_)) { SqlValue::Null } else { v.clone() }).collect()).collect()
-    };
-    if bag(&nulled(ur)) == bag(&nulled(fr)) {
-        Some("C08/simd-filter-nulls-strings")
-    } else {
-        None
-    }
 }
 
 /// The direct oracle for one ordered query; returns F's rows when everything could be evaluated.
@@ -179,7 +161,7 @@ fn check_ordered(
     if bag(&ur) != bag(&fr) {
         cx.rep.fail(
             FailKind::Oracle,
-            simd_signature(cx.simd_candidate, &ur, &fr),
+            None,
             &format!("{}: ordered result is not a permutation of the unordered result [{}]", cx.kind, tag),
             &replay(&format!("U: {}\nF: {}", u.brief(), f.brief())),
         );
@@ -471,7 +453,7 @@ fn run_plain(c: &PlainCase, model: &mut model::Model, rep: &mut Report, rng: &mu
         c.rows.iter().take(40).map(|r| format!("INSERT INTO t VALUES ({});\n", r.iter().map(|v| v.sql()).collect::<Vec<_>>().join(", "))).collect::<String>()
     ) + &(if c.rows.len() > 40 { format!("-- … {} rows in total (seeded generator)\n", c.rows.len()) } else { String::new() });
     let case_id = format!("plain {} {} {} {}", rows_sx(&c.rows), base, order_sql, c.index.is_some());
-    let mut cx = Ctx { rep, script, kind: "plain", simd_candidate: c.where_lit.is_some() && c.rows.len() >= 100 };
+    let mut cx = Ctx { rep, script, kind: "plain" };
 
     // engine rows that enter the sort (WHERE is not the property here)
     let input = db.query(&format!("SELECT * FROM t{}", w));
@@ -596,7 +578,7 @@ fn run_result_query(db: &mut Db, base: &str, ncols: usize, names: &[Option<Strin
     let probe = db.query(base);
     let len = probe.rows().map(|r| r.len()).unwrap_or(0);
     let los = lo_set(rng, len, 6);
-    let mut cx = Ctx { rep, script: script.to_string(), kind, simd_candidate: false };
+    let mut cx = Ctx { rep, script: script.to_string(), kind };
     let case_id = format!("{} {} {} {}", kind, script, base, order_sql);
     let res = check_ordered(db, base, &order_sql, &ks, &los, &mut cx, "-");
     let mut nontrivial = false;
@@ -841,7 +823,7 @@ fn run_probes(rep: &mut Report) {
         }
         los.push((None, Some(2)));
         los.push((Some(2), None));
-        let mut cx = Ctx { rep, script, kind: "probe", simd_candidate: false };
+        let mut cx = Ctx { rep, script, kind: "probe" };
         let r = check_ordered(&mut db, p.base, p.order, &ks, &los, &mut cx, p.name);
         let nontrivial = r.map(|(_, f)| f.len() >= 2).unwrap_or(false);
         cx.rep.count("deterministic_probes");
@@ -849,7 +831,7 @@ fn run_probes(rep: &mut Report) {
     }
 }
 
-/// deterministic reproduction of C08/simd-filter-nulls-strings (KNOWN-FINDING on every run)
+/// regression probe for 1db75cd3: SIMD filter path (>= 100 rows, WHERE) with a NULL in the first row's VARCHAR
 fn probe_simd(rep: &mut Report) {
     let mut db = Db::new();
     db.must("CREATE TABLE t (c0 INTEGER, c2 VARCHAR(20))");
@@ -859,7 +841,7 @@ fn probe_simd(rep: &mut Report) {
     }
     db.must(&format!("INSERT INTO t VALUES {}", vals.join(", ")));
     let script = "CREATE TABLE t (c0 INTEGER, c2 VARCHAR(20));\n-- 120 rows: (3, NULL) first, then (3 + i % 3, 'a<i % 4>') for i in 0..119\n".to_string();
-    let mut cx = Ctx { rep, script, kind: "probe", simd_candidate: true };
+    let mut cx = Ctx { rep, script, kind: "probe" };
     let ks = [KeySpec { idx: 1, desc: false }];
     check_ordered(&mut db, "SELECT c2, c0 FROM t WHERE c0 >= 3", "ORDER BY c0", &ks, &[], &mut cx, "SIMD filter path, first VARCHAR value NULL");
     cx.rep.count("deterministic_probes");
